@@ -103,7 +103,6 @@ structure GraphWF (inits : List TensorP) (inputs outputs vis : List ValueInfoP) 
   visNotIO : ∀ vi ∈ vis, vi.name ∉ inputs.map (·.name) ∧ vi.name ∉ outputs.map (·.name)
   nodupOut : (outputs.map (·.name)).Nodup
   outInput : ∀ vo ∈ outputs, vo.name ∈ inputs.map (·.name) → vo ∈ inputs
-  outNotNewInit : ∀ vo ∈ outputs, vo.name ∉ inputs.map (·.name) → vo.name ∉ inits.map (·.name)
   wfInit : inits.all (fun t => wfTensor t && validDType t.dataType) = true
   nodupQuant : (quant.map (·.tensorName)).Nodup
   quantOK : ∀ a ∈ quant, a.tensorName ∈ scopeNames (inputs.map (·.name)) (inits.map (·.name)) outs
@@ -271,15 +270,9 @@ theorem mem_tblFinal_input (hw : GraphWF inits inputs outputs vis quant outs) {v
   simp only [List.mem_append]
   exact Or.inl (Or.inl (List.mem_map_of_mem (List.mem_map_of_mem hvi)))
 
-theorem mem_tblFinal_init (hw : GraphWF inits inputs outputs vis quant outs) {p : TensorP}
+theorem mem_tblFinal_init (_hw : GraphWF inits inputs outputs vis quant outs) {p : TensorP}
     (hp : p ∈ inits) (hni : p.name ∉ inputs.map (·.name)) :
-    initValT vis quant p ∈ tblFinal inits inputs outputs vis quant outs := by
-  have hno : (initValT vis quant p).name ∉ outputs.map (·.name) := by
-    simp only [initValT_name]
-    intro hm
-    obtain ⟨vo, hvo, hn⟩ := List.mem_map.1 hm
-    exact hw.outNotNewInit vo hvo (by rw [hn]; exact hni) (by rw [hn]; exact List.mem_map_of_mem hp)
-  rw [← outUpd_id hno]
+    outUpd outputs (initValT vis quant p) ∈ tblFinal inits inputs outputs vis quant outs := by
   simp only [tblFinal, tblPre]
   apply List.mem_map_of_mem
   simp only [List.mem_append]
@@ -381,6 +374,19 @@ theorem findVI_none_of_output (hw : GraphWF inits inputs outputs vis quant outs)
     have := findVI_mem hf
     exact absurd (by rw [this.2]; exact hn) (hw.visNotIO vi this.1).2
 
+/-- an initializer that is a graph output: after the output entry has been applied the value
+carries exactly the info of that entry (no value_info exists for an output name) -/
+theorem sameInfo_out_init (hw : GraphWF inits inputs outputs vis quant outs) {p : TensorP}
+    (_hp : p ∈ inits) {vo : ValueInfoP} (hvo : vo ∈ outputs) (hpn : p.name = vo.name) :
+    sameInfo (applyInfoT (initValT vis quant p) vo) (applyInfoT (IRValue.blank vo.name) vo) := by
+  have hfv : findVI vis p.name = none := by
+    rw [hpn]; exact findVI_none_of_output hw (List.mem_map_of_mem (f := (·.name)) hvo)
+  have hmp : (initValT vis quant p).mprops = [] := by
+    simp only [initValT, hfv]
+    have := (sameInfo_applyQuant quant (initV0 (irT p) p.dataType)).2.2.2.2
+    simpa [initV0, IRValue.blank] using this
+  exact ⟨by simp [hpn, IRValue.blank], rfl, rfl, rfl, by simp [applyInfoT, hmp, IRValue.blank]⟩
+
 /-- S2: the graph outputs -/
 theorem ser_outputs (hw : GraphWF inits inputs outputs vis quant outs) :
     (outputs.map (gOutT (scopeNames (inputs.map (·.name)) (inits.map (·.name)) outs))).map
@@ -405,7 +411,15 @@ theorem ser_outputs (hw : GraphWF inits inputs outputs vis quant outs) :
         sameInfo_trans (sameInfo_constFrom inits _) (sameInfo_applyQuant quant _)
       rw [serValue_congr this]
       exact serValue_applyInfoT_blank vo hwf
-    have hno2 := hw.outNotNewInit vo hvo hin
+    by_cases hinit : vo.name ∈ inits.map (·.name)
+    · -- constant output: the output is a (non-input) initializer
+      obtain ⟨p, hp, hpn⟩ := List.mem_map.1 hinit
+      have hm := mem_tblFinal_init hw hp (by rw [hpn]; exact hin)
+      rw [outUpd_of_mem hw.nodupOut hvo (by simp [hpn])] at hm
+      rw [getD_tblFinal hw hl hm (by simp [hpn])]
+      rw [serValue_congr (sameInfo_out_init hw hp hvo hpn)]
+      exact serValue_applyInfoT_blank vo hwf
+    have hno2 := hinit
     have hout : vo.name ∈ outs := by
       rcases mem_scopeNames.1 hmem with h | h | h
       · exact absurd h hin
@@ -562,7 +576,8 @@ theorem init_elem (hw : GraphWF inits inputs outputs vis quant outs) {p : Tensor
     ((tblFinal inits inputs outputs vis quant outs).getD i (IRValue.blank "")).quant
       = quantDict quant p.name ∧
     (p.name ∉ inputs.map (·.name) →
-      (tblFinal inits inputs outputs vis quant outs).getD i (IRValue.blank "") = initValT vis quant p) := by
+      (tblFinal inits inputs outputs vis quant outs).getD i (IRValue.blank "")
+        = outUpd outputs (initValT vis quant p)) := by
   by_cases hin : p.name ∈ inputs.map (·.name)
   · obtain ⟨vi, hvi, hvn⟩ := List.mem_map.1 hin
     have hm := mem_tblFinal_input hw hvi
@@ -577,11 +592,14 @@ theorem init_elem (hw : GraphWF inits inputs outputs vis quant outs) {p : Tensor
     · have := quant_tblFinal hw hm
       rw [this, hname]
   · have hm := mem_tblFinal_init hw hp hin
-    have hg := getD_tblFinal hw hi hm (initValT_name vis quant p)
+    have hg := getD_tblFinal hw hi hm (by simp)
     rw [hg]
-    refine ⟨rfl, initValT_const p, ?_, fun _ => rfl⟩
+    have hc : (outUpd outputs (initValT vis quant p)).const = some (irT p) := by
+      rw [← initValT_const (vis := vis) (quant := quant) p]
+      unfold outUpd; split <;> rfl
+    refine ⟨by simp, hc, ?_, fun _ => rfl⟩
     have := quant_tblFinal hw hm
-    rw [this, initValT_name]
+    rw [this]; simp
 
 /-- S3/S4 and the names: the initializer loop of `serialize_graph_into` -/
 theorem ser_inits (hw : GraphWF inits inputs outputs vis quant outs) :
@@ -590,7 +608,7 @@ theorem ser_inits (hw : GraphWF inits inputs outputs vis quant outs) :
         lookupLast (scopeNames (inputs.map (·.name)) (inits.map (·.name)) outs) p.name) →
       serInitTensors (tblFinal inits inputs outputs vis quant outs) idxs = ps.map normTensor ∧
       serInitVIs (tblFinal inits inputs outputs vis quant outs) (inputs.map (·.name)) idxs
-        = normInitVIs vis (inputs.map (·.name)) ps ∧
+        = normInitVIs vis outputs (inputs.map (·.name)) ps ∧
       idxs.map (fun i => ((tblFinal inits inputs outputs vis quant outs).getD i (IRValue.blank "")).name)
         = ps.map (·.name) ∧
       idxs.flatMap (fun i => quantOf ((tblFinal inits inputs outputs vis quant outs).getD i (IRValue.blank "")))
@@ -619,19 +637,43 @@ theorem ser_inits (hw : GraphWF inits inputs outputs vis quant outs) :
         by_cases hin : p.name ∈ inputs.map (·.name)
         · simp [hin]
         · have hv := e4 hin
-          have hs := serValue_initValT (quant := quant) hw.wfVis p (irT_dtype p hwp.1 hwp.2).2
           have hne : p.name ≠ "" := by
             apply hw.nonempty
             exact mem_scopeNames.2 (Or.inr (Or.inl ⟨List.mem_map_of_mem hp, hin⟩))
-          have hsc : shouldCreateVI (initValT vis quant p) = true := by
-            have h2 := hs.2
-            simp only [shouldCreateVI, initValT_name]
-            cases ht : (initValT vis quant p).type with
-            | none => rw [ht] at h2; cases h2
-            | some _ => simp [String.isEmpty_iff, hne]
-          rw [hv, hsc, hs.1]
-          simp only [hin, List.contains_eq_mem, decide_false, Bool.not_false, Bool.and_self, if_true]
-          cases findVI vis p.name <;> rfl
+          have hnee : p.name.isEmpty = false := by simpa [String.isEmpty_iff] using hne
+          have hc : (inputs.map (·.name)).contains p.name = false := by simpa using hin
+          rw [hv]
+          simp only [hc, Bool.false_eq_true, if_false, Bool.not_false, Bool.and_true]
+          cases hfo : findVI outputs p.name with
+          | some vo =>
+            -- constant output: the value carries the info of the output entry
+            have hvo := findVI_mem hfo
+            have hsame := sameInfo_out_init hw hp hvo.1 hvo.2.symm
+            rw [outUpd_of_mem hw.nodupOut hvo.1 (by simp [hvo.2])]
+            rw [shouldCreateVI_congr hsame, serValue_congr hsame,
+              shouldCreateVI_applyInfoT_blank vo (List.all_eq_true.1 hw.wfOut vo hvo.1),
+              serValue_applyInfoT_blank vo (List.all_eq_true.1 hw.wfOut vo hvo.1), hvo.2, hnee]
+            simp only [Bool.not_false, Bool.and_true]
+          | none =>
+            have hno : (initValT vis quant p).name ∉ outputs.map (·.name) := by
+              simp only [initValT_name]
+              intro hm
+              obtain ⟨vo, hvo, hn⟩ := List.mem_map.1 hm
+              have := find?_of_nodup (fun v : ValueInfoP => v.name) hw.nodupOut hvo
+              rw [findVI, findLast?_eq_find? (fun v : ValueInfoP => v.name) p.name _ hw.nodupOut,
+                ← hn, this] at hfo
+              cases hfo
+            rw [outUpd_id hno]
+            have hs := serValue_initValT (quant := quant) hw.wfVis p (irT_dtype p hwp.1 hwp.2).2
+            have hsc : shouldCreateVI (initValT vis quant p) = true := by
+              have h2 := hs.2
+              simp only [shouldCreateVI, initValT_name]
+              cases ht : (initValT vis quant p).type with
+              | none => rw [ht] at h2; cases h2
+              | some _ => simp [hne]
+            rw [hsc, hs.1]
+            simp only [if_true]
+            cases findVI vis p.name <;> rfl
       · simp only [List.map_cons, e1, r3]
       · simp only [List.flatMap_cons, List.map_cons, r4]
         rw [normQuantFor_cons quant p.name]
@@ -789,7 +831,8 @@ theorem quantInputs_spec (tbl : List IRValue) (initNames : List String) :
 theorem quantOutputs_spec (hw : GraphWF inits inputs outputs vis quant outs) :
     ∀ (vos : List ValueInfoP) (seen : List Nat), (vos.map (·.name)).Nodup → (∀ vo ∈ vos, vo ∈ outputs) →
       (∀ vo ∈ vos, ∀ j, lookupLast (scopeNames (inputs.map (·.name)) (inits.map (·.name)) outs) vo.name
-          = some j → (vo.name ∈ inputs.map (·.name) → j ∈ seen) ∧ (vo.name ∉ inputs.map (·.name) → j ∉ seen)) →
+          = some j → (vo.name ∈ inputs.map (·.name) ∨ vo.name ∈ inits.map (·.name) → j ∈ seen)
+            ∧ (vo.name ∉ inputs.map (·.name) → vo.name ∉ inits.map (·.name) → j ∉ seen)) →
       quantOutputs (tblFinal inits inputs outputs vis quant outs)
           (vos.map (gOutT (scopeNames (inputs.map (·.name)) (inits.map (·.name)) outs))) seen
         = normQuantFor quant ((vos.map (·.name)).filter
@@ -826,28 +869,36 @@ theorem quantOutputs_spec (hw : GraphWF inits inputs outputs vis quant outs) :
       simp [quantOf, applyInfoT, IRValue.blank, normQuantFor, hfa]
     | some j =>
       obtain ⟨hdin, hdout⟩ := hdis vo (by simp) j hl
-      by_cases hin : vo.name ∈ inputs.map (·.name)
-      · -- pass-through: the input loop (or the initializer loop) annotated this value already
+      by_cases hin : vo.name ∈ inputs.map (·.name) ∨ vo.name ∈ inits.map (·.name)
+      · -- pass-through / constant output: the input loop or the initializer loop annotated this
+        -- value already
         have hj : seen.contains j = true := by simpa using hdin hin
-        have hc1 : (inputs.map (·.name)).contains vo.name = true := by simpa using hin
-        simp only [quantOutputs, hj, Bool.not_true, Bool.false_eq_true, if_false, hc1, Bool.false_and]
+        have hc1 : (!(inputs.map (·.name)).contains vo.name && !(inits.map (·.name)).contains vo.name)
+            = false := by
+          rcases hin with h | h
+          · have : (inputs.map (·.name)).contains vo.name = true := by simpa using h
+            rw [this]; rfl
+          · have : (inits.map (·.name)).contains vo.name = true := by simpa using h
+            rw [this]; simp
+        simp only [quantOutputs, hj, Bool.not_true, Bool.false_eq_true, if_false, hc1]
         exact quantOutputs_spec hw vos seen hnd.2 (fun v hv => hsub v (List.mem_cons_of_mem _ hv))
           (fun v hv k hk => hdis v (List.mem_cons_of_mem _ hv) k hk)
-      · have hj : seen.contains j = false := by simpa using hdout hin
-        have hno2 := hw.outNotNewInit vo hvo hin
+      · have hno2 : vo.name ∉ inits.map (·.name) := fun h => hin (Or.inr h)
+        have hin : vo.name ∉ inputs.map (·.name) := fun h => hin (Or.inl h)
+        have hj : seen.contains j = false := by simpa using hdout hin hno2
         have hc1 : (inputs.map (·.name)).contains vo.name = false := by simpa using hin
         have hc2 : (inits.map (·.name)).contains vo.name = false := by simpa using hno2
         simp only [quantOutputs, hj, Bool.not_false, if_true, hc1, hc2, Bool.and_self]
         rw [quantOutputs_spec hw vos (j :: seen) hnd.2 (fun v hv => hsub v (List.mem_cons_of_mem _ hv))
           (by intro v hv k hk
               obtain ⟨a, b⟩ := hdis v (List.mem_cons_of_mem _ hv) k hk
-              refine ⟨fun h => List.mem_cons_of_mem _ (a h), fun h hm => ?_⟩
+              refine ⟨fun h => List.mem_cons_of_mem _ (a h), fun h h' hm => ?_⟩
               rcases List.mem_cons.1 hm with rfl | hm
               · have h1 := lookupLast_getElem hk
                 have h2 := lookupLast_getElem hl
                 rw [h1] at h2
                 exact hnd.1 (by rw [← Option.some.inj h2]; exact List.mem_map_of_mem hv)
-              · exact b h hm), normQuantFor_cons quant vo.name]
+              · exact b h h' hm), normQuantFor_cons quant vo.name]
         congr 1
         have hmem := lookupLast_mem hl
         have hout : vo.name ∈ outs := by
@@ -879,7 +930,7 @@ theorem graphWF_of_wf (outer : Scopes) (name doc : String) (nodes : List NodeP)
   simp only [wfGraph, Bool.and_eq_true] at h
   obtain ⟨⟨⟨⟨⟨⟨⟨⟨⟨⟨⟨⟨⟨⟨h1, h2⟩, h3⟩, h4⟩, h5⟩, h6⟩, h7⟩, h8⟩, h9⟩, h10⟩, h11⟩, h12⟩, h13⟩, _h14⟩, h15⟩ := h
   refine ⟨⟨nodupStr_iff.1 h1, nodupStr_all_nonempty h2, nodupStr_iff.1 h3, h4, h5, h6, nodupStr_iff.1 h7,
-    ?_, nodupStr_iff.1 h9, ?_, ?_, h11, nodupStr_iff.1 h12, ?_⟩, h15⟩
+    ?_, nodupStr_iff.1 h9, ?_, h11, nodupStr_iff.1 h12, ?_⟩, h15⟩
   · intro vi hvi
     have := List.all_eq_true.1 h8 vi hvi
     simpa using this
@@ -887,14 +938,7 @@ theorem graphWF_of_wf (outer : Scopes) (name doc : String) (nodes : List NodeP)
     have := List.all_eq_true.1 h10 vo hvo
     have hc : (inputs.map (·.name)).contains vo.name = true := by
       rw [List.contains_eq_mem]; exact decide_eq_true hin
-    rw [if_pos hc] at this
-    rw [List.contains_eq_mem] at this
-    exact of_decide_eq_true this
-  · intro vo hvo hin
-    have := List.all_eq_true.1 h10 vo hvo
-    have hc : ¬ (inputs.map (·.name)).contains vo.name = true := by
-      rw [List.contains_eq_mem]; simpa using hin
-    rw [if_neg hc] at this
+    rw [hc] at this
     simpa using this
   · intro a ha
     have := List.all_eq_true.1 h13 a ha
@@ -1127,8 +1171,9 @@ theorem graph_core (outer : Scopes) (ver : Option Int) (name doc : String) (node
         intro vo hvo j hj
         have hjname := getD_name_of_lookup (tblFinal inits inputs outputs vis quant (nodeOutNames nodes))
           (by rw [hNfin]; exact hj)
-        refine ⟨fun hin => ?_, fun hin hm => ?_⟩
-        · -- a pass-through output: its value was annotated by the input or the initializer loop
+        refine ⟨fun hin0 => ?_, fun hin hno2 hm => ?_⟩
+        · -- a pass-through / constant output: its value was annotated by the input or the
+          -- initializer loop
           simp only [List.append_nil, List.mem_append, List.mem_reverse, List.mem_filter,
             List.mem_range]
           by_cases hinit : vo.name ∈ inits.map (·.name)
@@ -1139,6 +1184,7 @@ theorem graph_core (outer : Scopes) (ver : Option Int) (name doc : String) (node
               exact List.mem_map.2 ⟨p, hp, by simp only [hpn]; exact hj⟩
             simpa using this
           · right
+            have hin : vo.name ∈ inputs.map (·.name) := hin0.resolve_right hinit
             have hlt : j < inputs.length := by
               have hnB : vo.name ∉ (inits.map (·.name)).filter (fun n => !(inputs.map (·.name)).contains n)
                   ++ nodeOutNames nodes := by
@@ -1153,8 +1199,7 @@ theorem graph_core (outer : Scopes) (ver : Option Int) (name doc : String) (node
             refine ⟨hlt, ?_⟩
             rw [hjname]
             simpa using hinit
-        · have hno2 := hw.outNotNewInit vo hvo hin
-          simp only [List.append_nil, List.mem_append, List.mem_reverse, List.mem_filter,
+        · simp only [List.append_nil, List.mem_append, List.mem_reverse, List.mem_filter,
             List.mem_range] at hm
           rcases hm with hm | hm
           · apply hno2
